@@ -1406,6 +1406,18 @@ def feed (a : Acc) (line : String) : Acc :=
   | "alt" =>
     let a := flushAcc a
     { a with st := handleAlt { a.st with ctx := s!"alt/{tget t "scheme"}/{tget t "route"}", lastVerify := none } t }
+  | "race" =>
+    -- several nodes updating their own records at the same time: summary of the harness's own checks
+    let a := flushAcc a
+    let s := { a.st with ctx := s!"race/{tget t "scheme"}", nInputs := a.st.nInputs + 1 }
+    let s := s.cov s!"race/{tget t "scheme"}/{tget t "updates"}"
+    let s := if tget t "panics" != "0" then s.prop "C03" "no_panic_when_nodes_update_concurrently" s!"panics={tget t "panics"}" else s.chk
+    let s := if tget t "bad" != "0" then
+        ((s.prop "C05" "records_stay_valid_when_nodes_update_concurrently" s!"bad={tget t "bad"} of {tget t "updates"}").prop
+          "C10" "node_id_is_hash_of_key" s!"concurrent updates: bad={tget t "bad"}").prop
+          "C08" "updates_take_effect_in_every_context" s!"concurrent updates: bad={tget t "bad"}"
+      else s.chk
+    { a with st := s }
   | "ck" =>
     let a := flushAcc a
     let a := { a with st := { a.st with nInputs := a.st.nInputs + 1 } }
